@@ -878,8 +878,9 @@ def exUpgradeOps : List Op :=
 
 /-- **The literal clause "any royalty change is accepted at most once per 24 hours" fails across an upgrade of an instance
 whose stored version is below 3.1.0**: a real history (no `setver` in it) with two accepted, observable royalty changes
-1 ns apart. Replayed on the real sg721-updatable: `corpus/C10/upgrade-rewind.json`. Instances created by the current
-code are not affected (`C10_no_rewind_reachable`, `C10_cadence`). -/
+1 ns apart. Exercised on the real sg721-updatable as a documented OBSERVATION (`corpus/C10/upgrade-rewind.json`): by decision
+not a finding — the property quantifies over royalty updates of a collection, not over upgrades from pre-3.1.0 code.
+Instances created by the current code are not affected (`C10_no_rewind_reachable`, `C10_cadence`). -/
 theorem C10_cadence_upgrade_counterexample :
     NoSetver exUpgradeOps ∧ rewinding (step' exOld exUpgradeOps[0]) exUpgradeOps[1] = true ∧
     acceptedTimes exOld exUpgradeOps = [exT, exT + 1] ∧ changeTimes exOld exUpgradeOps = [exT, exT + 1] ∧
